@@ -563,6 +563,13 @@ func (v *verifier) processSignature(ctx context.Context, sigBlob []byte, envelop
 			return processPluginResponse(capabilitiesToVerify, response, outcome)
 		}
 	}
+
+	// no verification plugin was executed: when the signature does not name
+	// a verification plugin any extended critical attribute is left
+	// unprocessed, otherwise those that can not be passed to a plugin
+	if attr := firstUnprocessedExtendedCriticalAttribute(&outcome.EnvelopeContent.SignerInfo, installedPlugin != nil); attr != nil {
+		return notation.ErrorVerificationInconclusive{Msg: fmt.Sprintf("extended critical attribute %v is not supported and was not processed by a verification plugin", attr.Key)}
+	}
 	return nil
 }
 
@@ -630,6 +637,9 @@ func processPluginResponse(capabilitiesToVerify []pluginframework.Capability, re
 		if !slices.ContainsAny(response.ProcessedAttributes, attr.Key) {
 			return fmt.Errorf("extended critical attribute %q was not processed by the verification plugin %q (all extended critical attributes must be processed by the verification plugin)", attr.Key, verificationPluginName)
 		}
+	}
+	if attr := firstUnprocessedExtendedCriticalAttribute(&outcome.EnvelopeContent.SignerInfo, true); attr != nil {
+		return notation.ErrorVerificationInconclusive{Msg: fmt.Sprintf("extended critical attribute %v is not supported and can not be processed by the verification plugin %q", attr.Key, verificationPluginName)}
 	}
 
 	for _, capability := range capabilitiesToVerify {
